@@ -253,7 +253,7 @@ def _record_turns():
         finally:
             state["depth"] -= 1
         if top and isinstance(rule, type) and issubclass(rule, Primary) and context.state == "running":
-            if rule.__name__ in ("IsComment", "IsPreprocessorStatement") and len(state["calls"]) < 60:
+            if rule.__name__ in ("IsComment", "IsPreprocessorStatement", "IsEmptyLine") and len(state["calls"]) < 90:
                 state["calls"].append((rule.__name__, window, bool(r[0] is True), int(r[1]) if isinstance(r[1], int) else -999))
             if r[0] is True and len(state["turns"]) < 14:
                 state["turns"].append((rule.__name__, int(r[1]), window))
@@ -334,7 +334,7 @@ def model_traces(traces):
 def model_primaries(windows):
     """windows: [token type list] -> [[ispreproc_prefix code], [iscomment b, jump], [turn code]] from the generated Gen/IsComment.v"""
     pre = ("From NV Require Import Model.Base Model.Lexer Model.RuleChecks Model.EngineTok0 Model.Engine Model.RegistryOrder "
-           "Gen.IsComment Model.EngineTok.\n"
+           "Gen.IsComment Gen.IsEmptyLine Model.EngineTok.\n"
            "Definition oz (o : option (bool * Z)) : list Z := match o with None => [-1] | Some (b, j) => [if b then 1 else 0; j] end.\n"
            "Definition tz (o : option tryres) : list Z := match o with None => [-1] | Some NoMatch => [0] "
            "| Some (Matched n j) => [1; if str_eqb n (s \"IsComment\") then 1 else if str_eqb n (s \"IsPreprocessorStatement\") then 2 else 0; j] "
@@ -342,7 +342,7 @@ def model_primaries(windows):
     names = sorted({t for w in windows for t in w})
     pre += "".join("Definition ty_%d : str := s \"%s\".\n" % (k, n) for k, n in enumerate(names))
     idx = {n: k for k, n in enumerate(names)}
-    files = [pre + "Definition ws : list (list token) :=\n [%s].\nEval vm_compute in (map (fun w => [oz (ispreproc_prefix w); oz (Some (iscomment_run w)); tz (turn primaries_order w)]) ws).\n"
+    files = [pre + "Definition ws : list (list token) :=\n [%s].\nEval vm_compute in (map (fun w => [oz (ispreproc_prefix w); oz (Some (iscomment_run w)); tz (turn primaries_order w); oz (Some (isemptyline_run w))]) ws).\n"
              % ";\n  ".join("[" + "; ".join("mk_tok ty_%d 0 0" % idx[t] for t in w) + "]" for w in ch) for ch in chunks(windows, 150)]
     out = []
     for r, ch in zip(coq_eval(files), chunks(windows, 150)):
@@ -624,8 +624,12 @@ def run(run, tier, seed, replay=None):
                 found |= run.violation("correspondence-primaries-model-failed", {"error": m})
                 break
             rec = wins[w]
-            pp, ic, tn = m
+            pp, ic, tn, el = m
             bad = None
+            if "IsEmptyLine" in rec["calls"]:
+                ret_, jump_ = rec["calls"]["IsEmptyLine"]
+                if [int(ret_), jump_ if ret_ else 0] != el and not (len(w) == 60 and el[1] >= 59):
+                    bad = ("IsEmptyLine.run", [int(ret_), jump_], el)
             if "IsComment" in rec["calls"]:
                 ret_, jump_ = rec["calls"]["IsComment"]
                 if [int(ret_), jump_ if ret_ else 0] != ic and not (len(w) == 60 and ic[1] >= 59):
